@@ -8,6 +8,7 @@ import io
 import math
 import struct
 import itertools
+from typing import Dict
 
 from mc import core
 
@@ -41,6 +42,18 @@ class C13Three(Serializable):
     a: object = None
     b: object = None
     c: object = None
+
+
+class C13Defaults(Serializable):
+    """fields whose class defaults are NOT None, and container-annotated fields (which __init__ pre-fills)"""
+    name: str = "anonymous"
+    hp: int = 100
+    team: C13Color = C13Color.RED
+    items: list = None
+    scores: Dict[str, int] = None
+    flag: bool = True
+    ratio: float = 0.5
+    blob: bytes = b"default"
 
 
 INTS = [0, 1, -1, 127, -127, 128, -128, 129, -129, 32767, -32767, 32768, -32768, 32769, -32769,
@@ -102,6 +115,15 @@ def gen_values(tier):
         yield (v,), "tuple1"
         yield {v}, "set1"
         yield C13One(x=v), "class1"
+    # every field of a class with non-None defaults / container annotations set to None, to a non-default value, or left
+    alts = {"name": [None, "", "bob"], "hp": [None, 0, -1], "team": [None, C13Color.GREEN], "items": [None, [], [1]], "scores": [None, {}, {"a": 1}],
+            "flag": [None, False], "ratio": [None, 0.0], "blob": [None, b""]}
+    for field, vals in alts.items():
+        for v in vals:
+            yield C13Defaults(**{field: v}), "class-defaults one field"
+    for combo in itertools.product(*[vals[:2] for vals in alts.values()]):
+        yield C13Defaults(**dict(zip(alts.keys(), combo))), "class-defaults all fields"
+    yield [C13Defaults(name=None), {"k": C13Defaults(items=None, hp=None)}], "class-defaults nested"
     yield [], "list0"
     yield (), "tuple0"
     yield set(), "set0"
